@@ -95,7 +95,6 @@ def check_ast(ast, acc, case):
     if got[0] != 'ok':
         acc.violation('compile-exception', case, 'Compiler.compile raised ' + got[1])
         return
-    pk = got[1]
     want = expected_tags(ast)
     if any(want):
         acc.nontrivial += 1
@@ -103,13 +102,18 @@ def check_ast(ast, acc, case):
         acc.states.add(min(len(w), 12))
         acc.trans.add(tuple(t['name'] for t in w))
     acc.outcomes[min(max([len(w) for w in want] or [0]), 10)] += 1
-    tags = P.p_c08(pk)
-    if tags != want:
-        i = next((i for i, (x, y) in enumerate(zip(tags, want)) if x != y), min(len(tags), len(want)))
-        acc.violation('pickle-tags', case, 'pickle %d: tags are not feature + rule + scenario + examples tags in source order' % i,
-                      observed=tags[i:i + 1], expected=want[i:i + 1])
-        return
-    A.compare(acc, case, 'pickle-tags', 'pickle tags', tags, P.p_c08(exp))
+    for route, res in (('fresh compiler', got), ('compiler that compiled other documents before', P.compile_reused(ast))):
+        if res[0] != 'ok':
+            acc.violation('compile-exception', case, 'Compiler.compile (%s) raised %s' % (route, res[1]))
+            return
+        tags = P.p_c08(res[1])
+        if tags != want:
+            i = next((i for i, (x, y) in enumerate(zip(tags, want)) if x != y), min(len(tags), len(want)))
+            acc.violation('pickle-tags', case, '%s: pickle %d: tags are not feature + rule + scenario + examples tags in source order' % (route, i),
+                          observed=tags[i:i + 1], expected=want[i:i + 1])
+            return
+        if not A.compare(acc, case, 'pickle-tags', route + ': pickle tags', tags, P.p_c08(exp)):
+            return
 
 
 def run(ctx):
